@@ -149,7 +149,13 @@ func c19Run(c *Ctx, order []int, serial bool) (out c19Outcome, reqs []c19Req, pu
 	}
 	fab = append(fab, cand...)
 	// pool content before the phase
-	nut.Do("pool", func() { nut.Pool.AddTxs(append(mkTxs(now, c.Draw("gen", 3)), shared...)) })
+	// the node's pool holds its own copies (as decoded from its own network/RPC input), never
+	// the objects that sit inside the fabricated blocks
+	var poolTxs types.Transactions
+	for _, tx := range append(mkTxs(now, c.Draw("gen", 3)), shared...) {
+		poolTxs = append(poolTxs, wireCopyTx(tx))
+	}
+	nut.Do("pool", func() { nut.Pool.AddTxs(poolTxs) })
 	// make the node's own slot come up for MineBlock if it is a deputy
 	k := 2 + c.Draw("gen", 3)
 	for i := 0; i < k; i++ {
@@ -176,11 +182,17 @@ func c19Run(c *Ctx, order []int, serial bool) (out c19Outcome, reqs []c19Req, pu
 		}
 	}
 	verdicts := make([]string, len(reqs))
+	wire := make([]*types.Block, len(reqs)) // every request carries its own decoded copy
+	for i, rq := range reqs {
+		if rq.Kind == "block" {
+			wire[i] = wireCopyBlock(rq.Block)
+		}
+	}
 	run := func(i int) {
 		rq := reqs[i]
 		switch rq.Kind {
 		case "block":
-			_, err := nut.Eng.InsertBlock(wireCopyBlock(rq.Block))
+			_, err := nut.Eng.InsertBlock(wire[i])
 			verdicts[i] = fmt.Sprintf("%s=%s", rq.Label, verdictClass(err))
 		case "confirms":
 			err := nut.Eng.InsertConfirms(rq.Block.Height(), rq.Block.Hash(), rq.Sigs)
